@@ -58,7 +58,19 @@ class WatchSpec(SeqSpec):
         MAXPAR = maxpar
         ngates = 0
         nwatch = rng.choice([0, 1, 1, 2])
-        if kind == "held":
+        if kind == "storm":
+            # many Sets racing each other (Set from several goroutines is allowed by the type: atomic Swap)
+            grp = []
+            for i in range(MAXPAR):
+                t = add(0, None)
+                threads[t]["prog"] = [["set", setv(t)] for _ in range(rng.choice([4, 6, 6, 8]))]
+                if rng.random() < 0.3:
+                    threads[t]["prog"].append(["value"])
+                grp.append(t)
+            ops += [["spawn", t] for t in grp]
+            ops.append(["release", 0])
+            ngates = 1
+        elif kind == "held":
             # the window between Value's return and the caller's look at the channel: a caller is held
             # there (gate 1) while Sets happen, then released: it must find the channel closed
             pre = rng.random() < 0.6
@@ -139,7 +151,7 @@ class WatchSpec(SeqSpec):
 
     def gen(self, rng, tier, scale):
         n = int((200 if tier == "quick" else 2400) * scale)
-        return [self.gen_one(rng, ("first-set-race", "groups", "held", "groups")[i % 4], 3 if tier == "quick" else 4) for i in range(n)]
+        return [self.gen_one(rng, ("first-set-race", "groups", "held", "groups", "storm")[i % 5], 3 if tier == "quick" else 4) for i in range(n)]
 
     def coq_case(self, case, obs):
         ths = []
